@@ -35,16 +35,27 @@ def option_is_some(o):
     return o.discr == bv(1, 64)
 
 
-def structural_eq(ex, st, a, b):
+def structural_eq(ex, st, a, b, memo=None):
     a, b = deref_any(ex, st, a), deref_any(ex, st, b)
     if is_z3(a) and is_z3(b):
         return a == b
+    if memo is None:
+        memo = {}
+    key = (id(a), id(b))
+    r = memo.get(key)
+    if r is None:
+        r = (_structural_eq(ex, st, a, b, memo), a, b)
+        memo[key] = r
+    return r[0]
+
+
+def _structural_eq(ex, st, a, b, memo):
     if isinstance(a, Unit) and isinstance(b, Unit):
         return TRUE
     if isinstance(a, Agg) and isinstance(b, Agg):
         if len(a.fields) != len(b.fields):
             return FALSE
-        return zand(*[structural_eq(ex, st, x, y) for x, y in zip(a.fields, b.fields)])
+        return zand(*[structural_eq(ex, st, x, y, memo) for x, y in zip(a.fields, b.fields)])
     if isinstance(a, EnumV) and isinstance(b, EnumV):
         cs = [a.discr == b.discr]
         for k in set(a.variants) & set(b.variants):
@@ -55,12 +66,12 @@ def structural_eq(ex, st, a, b):
             if d is None:
                 raise Unsupported("eq on enum without definition")
             cs.append(z3.Implies(a.discr == bv(d, 64),
-                                 zand(*[structural_eq(ex, st, x, y) for x, y in zip(fa, fb)])))
+                                 zand(*[structural_eq(ex, st, x, y, memo) for x, y in zip(fa, fb)])))
         return zand(*cs)
     if isinstance(a, (BoxV, BoxPtr)) and isinstance(b, (BoxV, BoxPtr)):
         if a.content is None or b.content is None:
             raise PathAbort('depth', 'equality below the materialised type depth')
-        return structural_eq(ex, st, a.content, b.content)
+        return structural_eq(ex, st, a.content, b.content, memo)
     if isinstance(a, SliceRef) and isinstance(b, SliceRef):
         return slice_eq(a, b)
     if isinstance(a, Opaque) and isinstance(b, Opaque):
